@@ -1,8 +1,12 @@
-"""C01 - see lib/srvprop.py (family table, generators) and spec/H2Server.tla, spec/H2ServerTrace.tla."""
+"""C01 - see lib/srvprop.py (family table, generators) and spec/H2Server.tla, spec/H2ServerTrace.tla.
+Goroutine-level model: spec/SrvWriterQueue.tla (a response header block is one element of the shared writer queue, so it
+is contiguous on the wire whatever the read loop and the timers queue; code side: bighdr-queue + the contiguity clauses)."""
 import srvprop
 
 
 def run(ctx):
+    ctx.model_check('SrvWriterQueue', 'SrvWriterQueue.cfg', workers=2)
+    ctx.model_expect_violation('SrvWriterQueue', 'SrvWriterQueue_bad1.cfg', 'Contiguous', workers=2)
     srvprop.run(ctx, 'C01')
 
 
